@@ -38,6 +38,8 @@ func main() {
 	// child processes are started, so that the enumeration never runs next to a CPU-budgeted call
 	gen.CollidingPairs("")
 	gen.CollidingPairs("v")
+	gen.HashExtremes("")
+	gen.HashExtremes("v")
 	dir := os.Getenv("VERIF_DIR")
 	if dir == "" {
 		dir = "/verif"
